@@ -85,11 +85,13 @@ def rule_dispatch(check):
     found = 0
     for name, (variant, allowed) in TRANSFORMS.items():
         sites = [n for n in hir.calls_in(f.body, name=name)]
+        inner = {}
         # also through helper methods of the visitor (one level)
         if not sites:
             for n, g in prog.local_callees(f):
                 if g.body is not None and any(True for _ in hir.calls_in(g.body, name=name)):
                     sites.append(n)
+                    inner[n["id"]] = (g, list(hir.calls_in(g.body, name=name))[0])
         if not sites:
             check.bad(R, "%s/%s/missing" % (R, name), hir.loc(f.rec), "visit_mut_expr never calls %s: Expr::%s is not instrumented" % (name, variant))
             continue
@@ -107,8 +109,8 @@ def rule_dispatch(check):
                 check.ok(R, key, hir.loc(n), "called on Expr::%s under {%s}" % (variant, ", ".join(sorted(set(kinds) - {"closure", "other-arm"}))))
             # the result must replace the expression when it is modified
             applied = False
-            par_fn = f
-            for m in hir.walk(f.body):
+            par_fn, target = inner.get(n["id"], (f, n))
+            for m in hir.walk(par_fn.body):
                 if hir.is_call(m) and hir.callee_name(m) == "map_with_mut":
                     cl = [a for a in hir.call_args(m)[1:] if hir.peel(a).get("k") == "Closure"]
                     if not cl:
@@ -121,9 +123,9 @@ def rule_dispatch(check):
                             base = hir.local_of(recv["x"])
                             if base is None:
                                 continue
-                            b = f.bindings().get(base[0])
+                            b = par_fn.bindings().get(base[0])
                             init = b and b["origin"][0] == "let" and b["origin"][1]
-                            if init and any(x is n for x in hir.walk(init)):
+                            if init and any(x is target for x in hir.walk(init)):
                                 applied = True
             check.expect(applied, R, key + "/applied", hir.loc(n), "result.expr replaces the expression through map_with_mut", "the result of %s is never written back into the tree" % name)
     check.floor(R, "transform call sites", found, 5)
